@@ -93,6 +93,19 @@ theorem EntryInv.getD {log : List (LogItem α)} {c : Cache} (h : CacheInv log c)
   | none => exact EntryInv.fresh log r.addr r.ts
   | some e => exact h r.addr e hc
 
+/-- the slot of the OTHER parity, read through `otherMsg`/`otherTs` -/
+theorem EntryInv.other {log : List (LogItem α)} {A : Address} {e : AircraftState} (h : EntryInv log A e)
+    (par : Parity) (o : Msg) (ho : otherMsg e par = some o) :
+    ∃ x ∈ log, x.1.1.addr = A ∧ x.1.1.kind = .airborne ∧ x.1.1.msg = o ∧ o.parity ≠ par ∧
+      x.1.1.ts = otherTs e par := by
+  cases par with
+  | even =>
+    obtain ⟨x, hx, a, b, c, d, f⟩ := h.odd o ho
+    exact ⟨x, hx, a, b, c, by rw [d]; decide, f⟩
+  | odd =>
+    obtain ⟨x, hx, a, b, c, d, f⟩ := h.even o ho
+    exact ⟨x, hx, a, b, c, by rw [d]; decide, f⟩
+
 /-! ### one step preserves it -/
 
 theorem mem_snoc_self (log : List (LogItem α)) (y : LogItem α) : y ∈ log ++ [y] :=
